@@ -8,7 +8,6 @@ import (
 	"strings"
 
 	"go.dedis.ch/kyber/v4"
-	"go.dedis.ch/kyber/v4/group/p256"
 
 	"verif/internal/gen"
 	"verif/internal/groups"
@@ -122,9 +121,9 @@ func c17Moduli(g *groups.G) (n int, ms []*big.Int) {
 		return 32, []*big.Int{ref.EdP, ref.EdL, new(big.Int).Lsh(big.NewInt(1), 255)}
 	case name == "p256":
 		return 32, []*big.Int{ref.P256.P, ref.P256.N}
-	case name == "qr512":
-		q := g.Grp.(*p256.QrSuite)
-		return 64, []*big.Int{q.P, q.Q}
+	case c17IsResidue(g):
+		q := c17PQ(g)
+		return g.Grp.PointLen(), []*big.Int{q.P, q.Q}
 	case strings.HasPrefix(name, "bn256"):
 		return 32, []*big.Int{ref.BN256G1.P, ref.BN256G1.N}
 	case strings.HasPrefix(name, "bn254"):
